@@ -492,6 +492,54 @@ fn c09_rle16_bg_bg_cross_line() {
     forget(r);
 }
 
+/// MS-RDPBCGR 2.2.9.1.1.3.1.2.4: two consecutive background runs insert one foreground pixel between them - except when the
+/// first one ended the FIRST scanline exactly at its end (the second run then starts the second scanline with a plain copy)
+#[kani::proof]
+#[kani::unwind(14)]
+fn c09_rle16_bg_bg_first_line_end() {
+    let a: [u16; 2] = kani::any();
+    // COLOR_IMAGE(2): a0 a1 ; BG_RUN(2) finishes the first scanline (black) ... no: first scanline = the two raw pixels is not a run.
+    // first scanline: COLOR_IMAGE(2) would not be a run, so the stream is BG_RUN(4) (first scanline, black) + BG_RUN(4) (second scanline)
+    let _ = a;
+    let input = [0x04u8, 0x04];
+    let mut out = [0x5555u16; 8];
+    let r = rle_16_decompress(&input, 4, 2, &mut out);
+    assert!(r.is_ok(), "decodes");
+    let mut i = 0;
+    while i < 8 { assert!(out[i] == 0, "both scanlines are black: no foreground pixel is inserted at the start of the second scanline"); i += 1; }
+    // the same with the split inside a scanline: 0x03 + 0x05 on a 4x2 image: pixel 3 of the first scanline is the inserted foreground pixel
+    let input2 = [0x03u8, 0x05];
+    let mut out2 = [0x5555u16; 8];
+    let r2 = rle_16_decompress(&input2, 4, 2, &mut out2);
+    assert!(r2.is_ok(), "decodes");
+    assert!(out2[4] == 0 && out2[5] == 0 && out2[6] == 0 && out2[7] == 0xffff, "first scanline: three black pixels, then the inserted white one");
+    assert!(out2[0] == 0 && out2[1] == 0 && out2[2] == 0 && out2[3] == 0xffff, "second scanline copies the first");
+    forget(r); forget(r2);
+}
+
+/// extended run counts at their largest byte value: FGBG_IMAGE (0x40) and SET_FG_FGBG_IMAGE (0xD0) with count byte 0xFF (256 pixels),
+/// regular orders with 0xFF (+32 / +16): on a 2x2 image all are refused after four pixels at the latest - never a panic
+#[kani::proof]
+#[kani::unwind(14)]
+fn c08_rle16_extended_count_ff() {
+    let m: [u8; 4] = kani::any();
+    let fg: u16 = kani::any();
+    let mut out = [0u16; 4];
+    let i1 = [0x40u8, 0xFF, m[0], m[1], m[2], m[3]];
+    let r1 = rle_16_decompress(&i1, 2, 2, &mut out);
+    assert!(r1.is_err(), "FGBG_IMAGE of 256 pixels on a 2x2 image is refused");
+    let i2 = [0xD0u8, 0xFF, fg as u8, (fg >> 8) as u8, m[0], m[1], m[2], m[3]];
+    let r2 = rle_16_decompress(&i2, 2, 2, &mut out);
+    assert!(r2.is_err(), "SET_FG_FGBG_IMAGE of 256 pixels on a 2x2 image is refused");
+    let i3 = [0x00u8, 0xFF];
+    let r3 = rle_16_decompress(&i3, 2, 2, &mut out);
+    assert!(r3.is_err(), "BG_RUN of 287 pixels on a 2x2 image is refused");
+    let i4 = [0xC0u8, 0xFF, fg as u8, (fg >> 8) as u8];
+    let r4 = rle_16_decompress(&i4, 2, 2, &mut out);
+    assert!(r4.is_err(), "SET_FG_FG_RUN of 271 pixels on a 2x2 image is refused");
+    forget(r1); forget(r2); forget(r3); forget(r4);
+}
+
 /// MEGA_MEGA DITHERED_RUN with the largest 16-bit pair count on a small image: refused or decoded, never a panic
 #[kani::proof]
 #[kani::unwind(14)]
